@@ -375,6 +375,14 @@ class World:
         if e == 'delete_branch_user':
             self.ugit('push', '-q', 'origin', ':' + ev['branch'], check=False)
             return {}
+        if e == 'tag_user':      # somebody tags a commit of a branch: its tip (back = 0) or an older commit
+            self.ugit('fetch', '-q', 'origin')
+            rc, sha = self.ugit('rev-parse', '--verify', '-q', 'origin/%s~%d' % (ev['branch'], ev.get('back', 0)),
+                                check=False)
+            if rc == 0:
+                self.ugit('tag', '-f', ev['tag'], sha.strip())
+                self.ugit('push', '-q', 'origin', 'refs/tags/' + ev['tag'], check=False)
+            return {}
         pr = None
         if 'pr' in ev:
             pr = self.repos[ev.get('user', AUTHOR)].get_pull_request(pull_request_id=ev['pr'])
